@@ -90,6 +90,7 @@ pub extern "C" fn tsrun_native_function(
 
     TsRunValueResult::ok(Box::new(TsRunValue {
         inner: crate::RuntimeValue::with_guard(JsValue::Object(fn_obj), guard),
+        c_string: core::cell::OnceCell::new(),
     }))
 }
 
